@@ -361,13 +361,24 @@ func runC16(tb stat.TB, c c16Case) {
 			logf("start update P%d via %s (%d request(s) parked)", k, st.Via, holders)
 			go func() {
 				p := c16Policy(k)
+				var err error
 				if st.Via == "export" {
 					o := s.e.NFS.GetExportOptions()
 					o.ReadOnly, o.AllowedIPs, o.MaxFileSize, o.EnableRateLimiting, o.RateLimitConfig = p.ReadOnly, p.AllowedIPs, p.MaxFileSize, p.EnableRateLimiting, p.RateLimitConfig
-					u.done <- s.e.NFS.UpdateExportOptions(o)
+					err = s.e.NFS.UpdateExportOptions(o)
 				} else {
-					u.done <- s.e.NFS.UpdatePolicyOptions(p)
+					err = s.e.NFS.UpdatePolicyOptions(p)
 				}
+				// The caller goes on using its own struct: what it does to it after the call is not an update. The
+				// allow-list is turned into one that admits 127.0.0.1 and the limits into generous ones; the policy in
+				// force must stay the one that was passed.
+				for i := range p.AllowedIPs {
+					p.AllowedIPs[i] = "127.0.0.1"
+				}
+				if p.RateLimitConfig != nil {
+					p.RateLimitConfig.PerConnectionRequestsPerSecond, p.RateLimitConfig.PerConnectionBurstSize = 1000000, 1000000
+				}
+				u.done <- err
 			}()
 			if holders > 0 {
 				nt = true
